@@ -59,6 +59,7 @@ type loopSnap struct {
 	heap map[string]string
 	dec  string
 	allocBase string
+	mods []modEntry
 }
 
 type State struct {
